@@ -284,8 +284,8 @@ def run(ctx):
 
 def finish(ctx):
     ctx.assumptions = [
-        "gf128_mul: C limb loop = 128-bit Horner form = SP 800-38D Algorithm 1 are theorems; the identification of Algorithm 1 with multiplication in GF(2)[x]/(x^128+x^7+x^2+x+1) is the standard's definition (ring laws not proved)",
-        "AES / ZUC / ChaCha20 models are the standards' definitions pinned by their published vectors (Examples); AES S-box table = inverse+affine map is a theorem (sweep)",
+        "gf128_mul: C limb loop = 128-bit Horner form = SP 800-38D Algorithm 1 are theorems (C04b_gf128_mul_limbs, C04b_gf128_mul_spec); the identification of Algorithm 1 with multiplication in GF(2)[x]/(x^128+x^7+x^2+x+1) is the standard's definition (ring laws not proved)",
+        "AES / ZUC / ChaCha20 models are the standards' definitions pinned by their published vectors (Examples); aes_dec_enc, AES S-box table = inverse+affine map, ZUC streaming = one-shot and LFSR range are theorems",
         "CCM Impl model = RFC 3610 Spec is a theorem (ccm_eq_rfc3610); the Spec is pinned by RFC 8998 A.2",
         "SIMD/AES-NI back-ends not built in the quick tier",
     ]
